@@ -341,9 +341,15 @@ def _get_demographic_events(g, demes_demo_events, sampled_pops):
     # same time with same dest can be converted to an admixture event, and split the
     # dest deme into two demes)
     demo_events = defaultdict(list)
+    late_pulses = []
     for pulse in demes_demo_events["pulses"]:
         event = ("pulses", pulse.sources, pulse.dest, pulse.proportions)
-        demo_events[pulse.time].append(event)
+        if g[pulse.dest].start_time == pulse.time:
+            # the destination is created at this very time: the pulse is applied
+            # after the event that creates it
+            late_pulses.append((pulse.time, event))
+        else:
+            demo_events[pulse.time].append(event)
     for branch in demes_demo_events["branches"]:
         event = ("branch", branch.parent, branch.child)
         demo_events[branch.time].append(event)
@@ -364,6 +370,9 @@ def _get_demographic_events(g, demes_demo_events, sampled_pops):
     for split in demes_demo_events["splits"]:
         event = ("split", split.parent, split.children)
         demo_events[split.time].append(event)
+
+    for time, event in late_pulses:
+        demo_events[time].append(event)
 
     # if there are any unsampled demes that end before present and do not have
     # any descendent demes, we need to add marginalization events.
